@@ -13,8 +13,9 @@
     nodes with their data; backend.put = create-or-overwrite, backend.delete = delete-if-exists
     (zkbackend.ZkBackend.put/delete -> zkutils.put / ensure_deleted).
 
-    The order of the phases of the two functions and the "changed" filter are NOT written here:
-    they are the parameter [cfg], instantiated from Gen.Tables (the c10_ definitions), which
+    The order of the phases of the two functions, the "changed" filter, whether init_schedule runs
+    two passes over all servers / reconciles node content, and whether check_placement_integrity
+    updates its app2server map after a repair are NOT written here: they are the parameter [cfg], instantiated from Gen.Tables (the c10_ definitions), which
     harness/tables_c10.py extracts from the Python AST of master.py on every run.
 
     Names are Z identifiers (harness keeps the bijection).  Model file: no proofs. *)
@@ -130,11 +131,15 @@ Record cfg := mkCfg {
   cf_phases : list phase;        (* top-level statement order of Master.reschedule *)
   cf_cmp_server : bool;          (* changed_placement filter contains  before != after          *)
   cf_cmp_expiry : bool;          (* changed_placement filter contains  exp_before != exp_after  *)
-  cf_init_phases : list phase    (* per-server statement order of Master.init_schedule *)
+  cf_init_phases : list phase;   (* statement order of Master.init_schedule (per server, or of its passes) *)
+  cf_init_two_pass : bool;       (* init_schedule: one loop over ALL servers per phase (else all phases per server) *)
+  cf_init_content : bool;        (* init_schedule rewrites a node whose data differs from _placement_data(app) *)
+  cf_integ_update : bool         (* check_placement_integrity: app2server[app] = correct_placement after a repair *)
 }.
-Definition cfg_of_tables (phases filt init_phases : list Z) : cfg :=
-  mkCfg (map phase_of_z phases) (zmem 1 filt) (zmem 2 filt) (map phase_of_z init_phases).
-Definition canonical_cfg : cfg := mkCfg [PhDel; PhPut; PhEvicted; PhSave] true true [PhDel; PhPut].
+Definition cfg_of_tables (phases filt init_phases init_flags integ_flags : list Z) : cfg :=
+  mkCfg (map phase_of_z phases) (zmem 1 filt) (zmem 2 filt) (map phase_of_z init_phases)
+        (zmem 1 init_flags) (zmem 2 init_flags) (zmem 1 integ_flags).
+Definition canonical_cfg : cfg := mkCfg [PhDel; PhPut; PhEvicted; PhSave] true true [PhDel; PhPut] true true true.
 Fixpoint phases_eqb (a b : list phase) : bool :=
   match a, b with
   | [], [] => true
@@ -143,7 +148,8 @@ Fixpoint phases_eqb (a b : list phase) : bool :=
   end.
 Definition cfg_canonical (c : cfg) : bool :=
   phases_eqb (cf_phases c) (cf_phases canonical_cfg) && cf_cmp_server c && cf_cmp_expiry c
-  && phases_eqb (cf_init_phases c) (cf_init_phases canonical_cfg).
+  && phases_eqb (cf_init_phases c) (cf_init_phases canonical_cfg)
+  && cf_init_two_pass c && cf_init_content c && cf_integ_update c.
 
 (** * Master.reschedule *)
 Definition changed (c : cfg) (t : ptuple) : bool :=
@@ -192,20 +198,36 @@ Definition unchanged_publishedb (c : cfg) (tuples : list ptuple) (i : info) (st 
     members: cell.members() in order, each with the names of server.apps (the "correct" set).
     [current] of a server is read from the store when its turn comes; the writes of the other
     servers do not touch it, so it is the listing in the initial store.  The order inside
-    "current - correct" / "correct - current" (Python set iteration) is the order of the listing /
+    "current - correct" / "correct - current" / "correct & current" (Python set iteration) is the order of the listing /
     of server.apps here; the harness feeds the order it observed through these two orders, and the
     theorems of PublishP hold for every order. *)
-Definition init_phase_writes (st : store) (i : info) (s : Z) (correct : list Z) (p : phase) : list write :=
+Definition stale_data (st : store) (i : info) (s a : Z) : bool :=
+  match lookup st s a with Some d => negb (pdata_eqb d (get_info i a)) | None => false end.
+Definition init_phase_writes (c : cfg) (st : store) (i : info) (s : Z) (correct : list Z) (p : phase) : list write :=
   let current := listing st s in
   match p with
   | PhDel => map (WDel s) (filter (fun a => negb (zmem a correct)) current)
-  | PhPut => map (fun a => WPut s a (get_info i a)) (filter (fun a => negb (zmem a current)) correct)
+  | PhPut => map (fun a => WPut s a (get_info i a))
+                 (filter (fun a => negb (zmem a current) || (cf_init_content c && stale_data st i s a)) correct)
   | _ => []
   end.
+(** one-loop form (all phases of a server, then the next server) *)
 Definition init_server_writes (c : cfg) (st : store) (i : info) (m : Z * list Z) : list write :=
-  WEnsure (fst m) :: flat_map (init_phase_writes st i (fst m) (snd m)) (cf_init_phases c).
+  WEnsure (fst m) :: flat_map (init_phase_writes c st i (fst m) (snd m)) (cf_init_phases c).
+(** two-pass form: the first phase for ALL servers (with ensure_exists), then the next phase for all servers.
+    The second pass lists the server again; the first pass removed only names outside server.apps, so for the
+    names the second pass looks at the listing and the data are those of the initial store. *)
+Definition init_pass_writes (c : cfg) (st : store) (i : info) (members : list (Z * list Z)) (first : bool) (p : phase)
+  : list write :=
+  flat_map (fun m => (if first then [WEnsure (fst m)] else []) ++ init_phase_writes c st i (fst m) (snd m) p) members.
+Definition init_passes (c : cfg) (st : store) (i : info) (members : list (Z * list Z)) : list write :=
+  match cf_init_phases c with
+  | [] => []
+  | p :: ps => init_pass_writes c st i members true p ++ flat_map (init_pass_writes c st i members false) ps
+  end.
 Definition init_writes (c : cfg) (st : store) (i : info) (members : list (Z * list Z)) : list write :=
-  flat_map (init_server_writes c st i) members ++ [WSave].
+  (if cf_init_two_pass c then init_passes c st i members else flat_map (init_server_writes c st i) members)
+  ++ [WSave].
 
 (** what the model holds: one entry per placed instance *)
 Definition model_entries (i : info) (tuples : list ptuple) : store :=
@@ -227,14 +249,23 @@ Inductive ioutcome :=
 Fixpoint amap_get (m : list (Z * Z)) (a : Z) : option Z :=
   match m with [] => None | (k, v) :: r => if Z.eqb k a then Some v else amap_get r a end.
 
-(** first pass; app2server keeps the FIRST server seen for an instance and is never updated *)
-Fixpoint integrity_scan (where_ : Z -> option (option Z)) (pairs : list (Z * Z)) (a2s : list (Z * Z))
+Fixpoint amap_set (m : list (Z * Z)) (a v : Z) : list (Z * Z) :=
+  match m with [] => [(a, v)] | (k, w) :: r => if Z.eqb k a then (k, v) :: r else (k, w) :: amap_set r a v end.
+
+Definition integ_next (upd : bool) (a2s : list (Z * Z)) (a first : Z) (correct : option Z) : list (Z * Z) :=
+  if oeqb correct (Some first) then a2s
+  else if upd then match correct with Some cv => amap_set a2s a cv | None => a2s end
+  else a2s.
+
+(** first pass; [upd] = the map is brought up to date after the first-seen entry has been removed (otherwise it
+    keeps the FIRST server seen for an instance for ever) *)
+Fixpoint integrity_scan (upd : bool) (where_ : Z -> option (option Z)) (pairs : list (Z * Z)) (a2s : list (Z * Z))
   : list (Z * Z) * list write * option ioutcome :=
   match pairs with
   | [] => (a2s, [], None)
   | (s, a) :: r =>
       match amap_get a2s a with
-      | None => integrity_scan where_ r (a2s ++ [(a, s)])
+      | None => integrity_scan upd where_ r (a2s ++ [(a, s)])
       | Some first =>
           match where_ a with
           | None => (a2s, [], Some IKeyError)
@@ -242,7 +273,7 @@ Fixpoint integrity_scan (where_ : Z -> option (option Z)) (pairs : list (Z * Z))
               if oeqb correct (Some first) || oeqb correct (Some s) then
                 let w1 := if oeqb correct (Some s) then [] else [WDel s a] in
                 let w2 := if oeqb correct (Some first) then [] else [WDel first a] in
-                let '(m, ws, o) := integrity_scan where_ r a2s in
+                let '(m, ws, o) := integrity_scan upd where_ r (integ_next upd a2s a first correct) in
                 (m, w1 ++ w2 ++ ws, o)
               else (a2s, [], Some IAssertNeither)
           end
@@ -252,9 +283,9 @@ Fixpoint integrity_scan (where_ : Z -> option (option Z)) (pairs : list (Z * Z))
 Definition integrity_cross (a2s : list (Z * Z)) (placed : list (Z * Z)) : bool :=
   forallb (fun p => match amap_get a2s (fst p) with Some s => Z.eqb s (snd p) | None => false end) placed.
 
-Definition integrity (where_ : Z -> option (option Z)) (placed : list (Z * Z)) (pairs : list (Z * Z))
+Definition integrity (upd : bool) (where_ : Z -> option (option Z)) (placed : list (Z * Z)) (pairs : list (Z * Z))
   : list write * ioutcome :=
-  let '(a2s, ws, o) := integrity_scan where_ pairs [] in
+  let '(a2s, ws, o) := integrity_scan upd where_ pairs [] in
   match o with
   | Some e => (ws, e)
   | None => (ws, if integrity_cross a2s placed then IOk else IAssertFailed)
@@ -327,7 +358,7 @@ Definition run_obs (c : cfg) (o : obs) : list Z :=
       let ws := init_writes c st i members in
       flat_writes ws ++ doubles_at_cuts st ws ++ flat_store (apply_writes st ws)
   | OIntegrity pairs known placed =>
-      let '(ws, o) := integrity (where_of placed known) placed pairs in
+      let '(ws, o) := integrity (cf_integ_update c) (where_of placed known) placed pairs in
       flat_writes ws ++ [ioutcome_z o]
   | ODedup restored => flat_writes (dedup_writes restored)
   end.
